@@ -145,3 +145,34 @@ package ordered
 //@   loop 2
 //@     invariant [lockstep] eqinv(a, b, i, j)
 //@     decreases len(b.items) - j
+
+//@ func (*Map).Range#f
+//@   assigns everything
+//@   note the callback of Range is arbitrary code: calling it forgets the heap
+
+//@ func (*Map).Range
+//@   inline
+//@   assigns everything
+//@   loop 0
+//@     invariant [bounds] 0 <= $idx
+
+//@ func NewMap
+//@   requires cap >= 0
+//@   assigns nothing
+//@   ensures [fresh] ret != nil && fresh(ret) && fresh(ret.items) && ret.index != nil && fresh(ret.index)
+//@   ensures [empty] len(ret.items) == 0 && len(ret.index) == 0
+//@   ensures [wf] wf(ret)
+
+//@ func (*Map).ToMap
+//@   requires m != nil ==> wf(m)
+//@   assigns nothing
+//@   ensures [nil] m == nil ==> ret == nil
+//@   ensures [view] m != nil ==> ret != nil && fresh(ret) &&
+//@       (forall k2 K :: {has(ret,k2)} has(ret,k2) == has(m.index,k2)) &&
+//@       (forall k2 K :: {ret[k2]} has(m.index,k2) ==> ret[k2] == m.items[m.index[k2]].Value)
+//@   loop Range.0
+//@     assigns *um
+//@     invariant [bounds] 0 <= $idx && $idx <= len(m.items) && um != nil && fresh(um)
+//@     invariant [dom] forall k2 K :: {has(um,k2)} has(um,k2) == (has(m.index,k2) && m.index[k2] < $idx)
+//@     invariant [val] forall k2 K :: {um[k2]} has(um,k2) ==> um[k2] == m.items[m.index[k2]].Value
+//@     decreases len(m.items) - $idx
